@@ -823,15 +823,19 @@ The headline statement, at full strength, is
 written file back to exactly the facts of `t` and stops at its end.  It is proved below for the decidable fragment
 `ClassWriteFull.InWriterFragment t` (hence `_partial`):
 
-* header, super types, interfaces; fields with `Deprecated Synthetic ConstantValue Signature` + unknown attributes;
-  methods **without `Code`** with `Deprecated Synthetic Exceptions Signature MethodParameters` + unknown attributes;
+* header, super types, interfaces; fields with `Deprecated Synthetic ConstantValue Signature
+  Runtime(In)VisibleAnnotations Runtime(In)VisibleTypeAnnotations` + unknown attributes;
+  methods **without `Code`** with `Deprecated Synthetic Exceptions Signature Runtime(In)VisibleAnnotations
+  Runtime(In)VisibleTypeAnnotations AnnotationDefault MethodParameters` + unknown attributes;
   class attributes `Deprecated Synthetic InnerClasses EnclosingMethod Signature SourceFile SourceDebugExtension
-  ModulePackages ModuleMainClass NestHost NestMembers PermittedSubclasses` + unknown attributes;
+  Runtime(In)VisibleAnnotations Runtime(In)VisibleTypeAnnotations ModulePackages ModuleMainClass NestHost NestMembers
+  PermittedSubclasses` + unknown attributes; annotations with every element-value kind (`B C D F I J S Z s e c @ [`),
+  nested up to the reader's limit of 255 levels, type annotations with every target the owner admits and any type path;
 * names valid where the reader validates them, access flags within the masks the tree can hold, unknown attributes not
   named like a known one (`ClassOk`), every constant and string of the pool the writer builds within its field
   (`PoolOkOf`: the operand ranges of duke's tree types);
-* not yet in the fragment (modelled and tied byte-exactly, no theorem): `Code`, annotations and type annotations,
-  `AnnotationDefault`, `Record`, `Module`, `BootstrapMethods`.
+* not yet in the fragment (modelled and tied byte-exactly, no theorem): `Code` (hence `BootstrapMethods`), `Record`,
+  `Module`.
 
 Route: the bytes are `(layout).encode` for the `ClassRead.Spec.ClassLayout` the writer chooses (its pool, its indices,
 its attribute order: `class_write_layout_partial`), every index the writer used resolves **in the final pool** to the
@@ -877,25 +881,33 @@ last label) is unreachable / unobservable: `write_fails_cleanly`, `code_frames_n
 theorem class_write_never_panics (t : ClassRead.ClassFacts) : ClassWriteFull.writeClass t ≠ .error .panic :=
   ClassWriteFull.np_writeClass (fun is res hres fs p => code_frames_never_panic is res hres fs p) t
 
-/-- non-vacuity: an interface with two fields (constant values, signature, unknown attribute), an abstract method
-(`Exceptions`, `Signature`, `MethodParameters`, unknown attribute) and all class attributes of the fragment -/
+/-- non-vacuity: an interface with two fields (constant values, signature, annotations with nested element values, a
+type annotation with a type path, unknown attribute), an abstract method (`Exceptions`, `Signature`, annotations, type
+annotations, `AnnotationDefault`, `MethodParameters`, unknown attribute) and all class attributes of the fragment -/
 def exampleTree : ClassRead.ClassFacts :=
   { minor := 0, major := 61, access := 0x0601, name := [65],
     super := some [106, 97, 118, 97, 47, 108, 97, 110, 103, 47, 79, 98, 106, 101, 99, 116], interfaces := [[73]],
-    fields := [⟨0x19, [102], [73], true, false, some (.int 7), some [73], [], [], [], [], [⟨[88], [1, 2]⟩]⟩,
+    fields := [⟨0x19, [102], [73], true, false, some (.int 7), some [73],
+                 [.mk [76, 65, 59] [([118], .arr [.const 90 1, .str [120], .anno (.mk [76, 66, 59] [([119], .enum [76, 69, 59] [88])])]),
+                                     ([100], .const 68 4607182418800017408)]], [],
+                 [⟨.field, [(3, 1), (0, 0)], .mk [76, 84, 59] []⟩], [], [⟨[88], [1, 2]⟩]⟩,
                ⟨0x0a, [103], [74], false, true, some (.str [104, 105]), none, [], [], [], [], []⟩],
-    methods := [⟨0x401, [109], [40, 41, 86], false, true, none, some [[69]], some [40, 41, 86], [], [], [], [], none,
+    methods := [⟨0x401, [109], [40, 41, 86], false, true, none, some [[69]], some [40, 41, 86], [], [.mk [76, 65, 59] []],
+                 [⟨.throws 0, [], .mk [76, 84, 59] []⟩, ⟨.formalParam 1, [], .mk [76, 84, 59] [([118], .cls [73])]⟩], [],
+                 some (.arr [.const 66 (-3), .const 67 65535]),
                  some [⟨some [112], 0x10⟩, ⟨none, 0⟩], [⟨[89], []⟩]⟩],
     deprecated := true, synthetic := false,
     innerClasses := some [⟨[65, 36, 66], some [65], some [66], 8⟩, ⟨[67], none, none, 0⟩],
     enclosingMethod := some ([79], some ([109], [40, 41, 86])), signature := some [76, 65, 59],
     sourceFile := some [65, 46, 106], sourceDebugExtension := some [120, 0, 0x10000],
-    rva := [], ria := [], rvta := [], rita := [], module := none, modulePackages := some [[112]], moduleMainClass := some [77],
+    rva := [.mk [76, 65, 59] [([118], .const 74 (-5))]], ria := [],
+    rvta := [⟨.extends_, [], .mk [76, 84, 59] []⟩, ⟨.typeParamBound 0x11 0 1, [(1, 0)], .mk [76, 84, 59] []⟩], rita := [],
+    module := none, modulePackages := some [[112]], moduleMainClass := some [77],
     nestHost := some [78], nestMembers := some [[65, 36, 66]], permittedSubclasses := some [],
     recordComponents := [], attrs := [⟨[90], [9]⟩] }
 
-example : ClassWriteFull.InWriterFragment exampleTree := by decide
-example : ∃ b, ClassWriteFull.writeClass exampleTree = .ok b := ⟨_, rfl⟩
+example : ClassWriteFull.InWriterFragment exampleTree := by decide +kernel
+example : (match ClassWriteFull.writeClass exampleTree with | .ok _ => true | .error _ => false) = true := by decide +kernel
 
 /-- `write_code` never looks at `Code.attributes`: whatever unknown attributes a method body carries, the same bytes are
 written — **the unknown attributes of `Code` are dropped** (the reader delivers them, `write_code` has no loop for them;
